@@ -3,8 +3,8 @@
 P="$1"; ID="$2"; TIER="${3:-quick}"
 cd /repo || exit 9
 if [ -n "$(git status --porcelain --untracked-files=no)" ]; then echo "/repo not clean"; exit 9; fi
-git apply "$P" || { echo "patch does not apply"; exit 9; }
+git apply "$P" 2>/dev/null || git apply --3way "$P" >/dev/null 2>&1 || { echo "patch does not apply"; git reset -q --hard HEAD; exit 9; }
 cd /verif && ./check "$ID" --tier "$TIER" 2>&1 | grep -v "^WARNING conda" | tail -${TAIL:-12}
 RC=$?
-git -C /repo checkout -- . 
+git -C /repo reset -q --hard HEAD
 echo "== reverted; /repo status: $(git -C /repo status --porcelain --untracked-files=no | wc -l) changes"
